@@ -82,6 +82,14 @@ def run(tier, seed):
     for i in range(3 if quick else 12):
         sd = rng.randrange(1 << 30)
         base.append(('range:%d' % sd, genprog.gen_range_program(sd)[1], []))
+    # end-of-input programs (hooks and actions on `end` transitions) under EOF support: the hook placement / user pointer
+    # options also apply inside <parser>_end
+    for i in range(4 if quick else 16):
+        sd = rng.randrange(1 << 30)
+        base.append(('end:%d' % sd, genprog.gen_end_program(sd)[1], ['-feof-support']))
+    for i in range(3 if quick else 12):
+        sd = rng.randrange(1 << 30)
+        base.append(('life:%d' % sd, genprog.gen_lifecycle_program(sd)[1], []))
     items = []
     for bi, (name, src, args) in enumerate(base):
         # quick: all 16 rows; thorough: every row of the 3-way array is used by some program, each program under 40 of them
